@@ -89,9 +89,21 @@ func (p *printer) printToken(t *token.Token, def []byte) {
 	}
 
 	for _, ff := range t.FreeFloating {
-		p.write(ff.Value)
+		p.writeToken(ff.Value)
 	}
-	p.write(t.Value)
+	p.writeToken(t.Value)
+}
+
+// writeToken writes the text of a token of the tree as it is: the open tag and the
+// blanks a source needs are tokens themselves, only defaults get them added by write
+func (p *printer) writeToken(b []byte) {
+	if len(b) == 0 {
+		return
+	}
+
+	p.state = PrinterStatePHP
+	p.last = b
+	p.output.Write(b)
 }
 
 func (p *printer) ifNode(n ast.Vertex, val []byte) []byte {
